@@ -724,9 +724,7 @@ func (v *fnVC) loadAt(addr T, t types.Type, snap map[string]T) T {
 			} else {
 				al = v.allocCur()
 			}
-			if mt == v.mem0(m) {
-				al = v.mem0(allocMem) // read from the entry memory: allocated at entry
-			}
+			entryRead := mt == v.mem0(m)
 			if gk := fmt.Sprint(v.blk.Index, "wf", res, al); !v.grounded[gk] {
 				v.grounded[gk] = true
 				wf := func(res, ref, tag, al T) {
@@ -737,6 +735,18 @@ func (v *fnVC) loadAt(addr T, t types.Type, snap map[string]T) T {
 					}
 				}
 				wf(res, ref, ifaceTag, al)
+				if entryRead && !strings.HasPrefix(m, "L_") {
+					// read from the entry memory at a location of an object that existed at entry: what it holds was
+					// allocated at entry. (Guarded by the location's root: the contract of a pure callee describes the
+					// fresh objects it returns on the same memory version, and those hold later references.)
+					a0 := v.mem0(allocMem)
+					guard := sel(a0, app("root", addr))
+					if ifaceTag != "" {
+						v.assume(implies(and(guard, app("isptrtag", ifaceTag)), or(eq(ref, "0"), and(sel(a0, ref), sel(a0, app("root", ref))))))
+					} else {
+						v.assume(implies(guard, or(eq(ref, "0"), and(sel(a0, ref), sel(a0, app("root", ref))))))
+					}
+				}
 				if m0 := v.mem0(m); mt != m0 && !strings.HasPrefix(m, "L_") {
 					// the same location in the entry memory: whatever it held was allocated at entry (lets
 					// the solver carry "allocated at entry" across store chains that did not touch it)
@@ -750,7 +760,13 @@ func (v *fnVC) loadAt(addr T, t types.Type, snap map[string]T) T {
 					case *types.Interface:
 						ref0, tag0 = app("ipay", r0), app("itag", r0)
 					}
-					wf(r0, ref0, tag0, v.mem0(allocMem))
+					a0 := v.mem0(allocMem)
+					guard := sel(a0, app("root", addr))
+					if tag0 != "" {
+						v.assume(implies(and(guard, app("isptrtag", tag0)), or(eq(ref0, "0"), and(sel(a0, ref0), sel(a0, app("root", ref0))))))
+					} else {
+						v.assume(implies(guard, or(eq(ref0, "0"), and(sel(a0, ref0), sel(a0, app("root", ref0))))))
+					}
 				}
 			}
 		}
@@ -816,7 +832,14 @@ func (v *fnVC) rangeFact(t T, ty types.Type) T {
 	}
 	switch ty.Underlying().(type) {
 	case *types.Pointer, *types.Map, *types.Chan:
-		return or(eq(t, "0"), and(v.allocd(t), v.allocd(app("root", t))))
+		rf := or(eq(t, "0"), and(v.allocd(t), v.allocd(app("root", t))))
+		if pt, ok := ty.Underlying().(*types.Pointer); ok {
+			if n, _, ok := v.isModStruct(pt.Elem()); ok && !v.e.interior[types.TypeString(n, nil)] {
+				// a struct type that is never embedded by value: a pointer to it is the base of its own object
+				rf = and(rf, or(eq(t, "0"), eq(app("root", t), t)))
+			}
+		}
+		return rf
 	case *types.Interface:
 		rf := implies(app("isptrtag", app("itag", t)), or(eq(app("ipay", t), "0"), and(v.allocd(app("ipay", t)), v.allocd(app("root", app("ipay", t))))))
 		if pkg := v.e.typesPkg(modPrefix); pkg != nil {
